@@ -17,18 +17,36 @@ import render as R
 UNI = CLI.UNI
 
 
-def run(V, tier, want, cfg="Layouts_cli.cfg"):
-    """want: subset of {"c01", "c02", "c04", "c05", "c08"}; returns number of sessions"""
-    meta = L.load_cases(cfg)
+def run(V, tier, want, cfg="Layouts_cli.cfg", meta=None, cap=None):
+    """want: subset of {"c01", "c02", "c04", "c05", "c08"}; returns number of sessions.
+    meta: a case table other than a Layouts configuration (the random-workspace table)"""
+    meta = meta or L.load_cases(cfg)
     C.build_server()
     by_shape = {}
     for case in C.tlc_cases(meta):
+        if meta["module"] == "RandomLayouts":
+            # the materialised tier knows one installed plugin (tp) without requests of its own; workspace plugins (editable
+            # installs) are C14's universe
+            if {"tp2", "tpi", "pl"} & set(case["ws"]) or any(it["deps"] for it in (case["ws"].get("tp") or {"items": []})["items"]):
+                continue
         by_shape.setdefault(L.shape_key(case), []).append(case)
+    if meta["module"] == "RandomLayouts":
+        # only two registration orders of a random workspace are in the table, while the real scan's order is arbitrary:
+        # workspaces in which the model holds ANY order-dependent deviation responsible for an answer are left to the
+        # library tier (which replays exactly the table's orders)
+        def order_free(cs):
+            for c in cs:
+                if any(r["blame"] for r in c["goto"]) or any(r["blame"] for r in c["rff"]):
+                    return False
+                if any(b for r in c["avail"] for b in r["blame"].values()):
+                    return False
+            return True
+        by_shape = {k: v for k, v in by_shape.items() if order_free(v)}
     shapes = sorted(by_shape)
     rnd = random.Random(C.seed() + 17)
     rnd.shuffle(shapes)
-    shapes = shapes[:120 if tier == "quick" else 1500]
-    base = os.path.join(C.BUILD, "ws", "bin-%s-%d" % ("".join(sorted(want)), os.getpid()))
+    shapes = shapes[:cap or (120 if tier == "quick" else 1500)]
+    base = os.path.join(C.BUILD, "ws", "bin-%s-%s-%d" % ("".join(sorted(want)), meta["module"], os.getpid()))
     shutil.rmtree(base, ignore_errors=True)
 
     def loc_key(loc, root):
@@ -76,6 +94,10 @@ def run(V, tier, want, cfg="Layouts_cli.cfg"):
                 if pc:
                     inc = srv.request("callHierarchy/incomingCalls", {"item": pc[0]})
                     rec["incoming"] = len(inc or [])
+                    if "c05" in want:
+                        # outgoing calls asked with the item prepared AT THIS USAGE (the client echoes the item back)
+                        og = srv.request("callHierarchy/outgoingCalls", {"item": pc[0]}) or []
+                        rec["outgoing_from_usage"] = sorted(str(loc_key({"uri": o["to"]["uri"], "range": o["to"]["selectionRange"]}, ws)) for o in og)
                 out["positions"].append(rec)
             if want & {"c04", "c05", "c08"}:
                 # workspace/symbol and documentSymbol: one entry per definition of the workspace's own files, each exactly once
@@ -140,7 +162,8 @@ def run(V, tier, want, cfg="Layouts_cli.cfg"):
                     if pc:
                         og = srv.request("callHierarchy/outgoingCalls", {"item": pc[0]}) or []
                         out.setdefault("outgoing", []).append(
-                            {"d": [slot, idx], "to": [loc_key({"uri": o["to"]["uri"], "range": o["to"]["selectionRange"]}, ws) for o in og]})
+                            {"d": [slot, idx], "to": [loc_key({"uri": o["to"]["uri"], "range": o["to"]["selectionRange"]}, ws) for o in og],
+                             "names": [o["to"]["name"] for o in og]})
             out["alive"] = srv.alive()
             return out
         except (lsp.ServerDied, lsp.Timeout) as e:
@@ -224,6 +247,17 @@ def run(V, tier, want, cfg="Layouts_cli.cfg"):
                                 V.classify(sorted(blame | {"avail_imported_first"}), e7, "the inlay type hint describes another definition than go-to-definition navigates to")
                             else:
                                 V.violation(e7, "the inlay type hint describes another definition than go-to-definition navigates to")
+            if "c05" in want and rec.get("outgoing_from_usage") is not None and rec["prepare"] is not None:
+                # the outgoing calls of a fixture do not depend on WHERE its call-hierarchy item was prepared: at a usage in
+                # some test module or on its own definition
+                for o in r.get("outgoing", []):
+                    if rel_def(tuple(o["d"])) == rec["prepare"]:
+                        at_def = sorted(str(x) for x in o["to"])
+                        if at_def != rec["outgoing_from_usage"]:
+                            V.violation(dict(e2, outgoing_calls_prepared_at_this_usage=rec["outgoing_from_usage"],
+                                             outgoing_calls_prepared_at_the_definition=at_def),
+                                        "callHierarchy/outgoingCalls of one fixture differs with the position its item was prepared at")
+                        break
             if "c04" in want and rec["definition"] is not None:
                 # references from this usage = declaration + usages; must contain this usage (or its def line) and no duplicates
                 refs = rec["references"]
@@ -305,7 +339,14 @@ def run(V, tier, want, cfg="Layouts_cli.cfg"):
             for og in r.get("outgoing", []):
                 for c in cases[:1]:
                     rows = [x for x in c.get("rff", []) if L.defid(x["d"]) == tuple(og["d"])]
-                    for row, to in zip(rows, og["to"]):
+                    # an outgoing call is paired with the dependency of that NAME (a fixture may request several fixtures)
+                    by_name = {}
+                    for nm, to in zip(og.get("names", []), og["to"]):
+                        by_name.setdefault(nm, to)
+                    for row in rows:
+                        if row["dep"] not in by_name:
+                            continue
+                        to = by_name[row["dep"]]
                         V.count()
                         py = {rel_def(L.defid(d)) for d in row["py"]}
                         if to not in py:
